@@ -87,7 +87,7 @@ def check(run):
                       'skel_cap': 45 if quick else 320, 'skel_stmts': 4 if quick else 5, 'skel_depth': 3,
                       'rich': not quick,
                       'jump_cap': 45 if quick else 700, 'jump_depth': 2 if quick else 3,
-                      'random_n': 20 if quick else 140, 'size': 12 if quick else 16,
+                      'random_n': 20 if quick else 140, 'size': 12 if quick else 16, 'family_step': 3 if quick else 1,
                       'budget_s': 140 if quick else 800,
                       'configs_per_program': 2 if quick else 4, 'runs_per_program': 6 if quick else 10,
                       'hashseed': (run.seed * 97 + k * 13 + 7) % 100000})
